@@ -126,7 +126,7 @@ CHECKS = {
                 "map-typed expression, unstable sort call and InstanceMap.Iterate/Keys caller found by go/types in the compiler and build "
                 "packages is in the audited table with an unchanged fingerprint of the audited loop / enclosing block. The property's own "
                 "observation is the search engine: generated multi-package generic programs built by N fresh compiler processes x minify x "
-                "cache on/off x permuted file listings must hash to one value per configuration.",
+                "cache on/off x permuted file listings must hash to one value per configuration; and GOPATH workspaces whose commands are installed alone and inside multi-command sessions must come out byte-identical (session_independent, session_project_context; regenerated fact: BuildProject resets the project-dependent session maps; the old sharing = proved counterexample, repaired by fix: caba386).",
         "note": "Trusted: the classification of each audited site is by reading the code; class F (monotone propagation to a fixed point) "
                 "relies on GV.Props.C02.propagate_lfp; nondeterminism is assumed to enter only through map iteration, unstable sorts and "
                 "file listing order (no goroutines/time/randomness on the output path - not checked).",
@@ -252,7 +252,7 @@ CHECKS = {
                 "or given with -tags, for every tag, expression and tag list; no later release tag; cgo never; std as js/wasm; a user tag "
                 "only affects expressions that mention it. The configuration facts are re-extracted from the code on every run and a "
                 "Lean obligation (decide) checks they equal the documented ones. Tied by importing generated package directories and "
-                "GOROOT packages through the real build context and comparing the selected files with the model.",
+                "GOROOT packages through the real build context and comparing the selected files with the model, including project directories whose path merely starts with the GOROOT string (the location of user code must not change its classification), symlinked files and look-alike user tags.",
         "note": "Trusted: Lean kernel; model of go/build's matcher is a transcription tied by differential runs; header parsing on the "
                 "harness side uses go/build/constraint; module resolution and go/build's comment-placement rules are not modelled; "
                 "post-load tweaks of runtime, runtime/pprof, sync, syscall/js are outside the corpus.",
@@ -260,7 +260,7 @@ CHECKS = {
     },
     "C14": {
         "text": "Lean theorems: the prelude's $decodeRune/$encodeRune (transcribed) equal Unicode Table 3-7 + Go's U+FFFD rule for all "
-                "byte strings/positions/runes, decode∘encode round trip, range iteration = spec. Tied to prelude.js by running the real "
+                "byte strings/positions/runes, decode∘encode round trip, range iteration = spec, string(x) of an integer operand of EVERY kind = encoding of its value (intToString_spec; the 64-bit case repaired by fix: 0ab99c1, old code = proved counterexample), []byte<->string on arbitrary slice windows, substring/index bounds, string literals survive compilation (literal_roundtrip). Tied to prelude.js by running the real "
                 "functions under Node against the model on an exhaustive boundary-alphabet space plus random inputs.",
         "note": "Trusted: Lean kernel; the model is a hand transcription checked by differential execution (not proved equal to the JS); "
                 "the spec is my reading of Unicode/Go spec; V8. The compiler's emission of string operations is covered by compiled "
